@@ -4,7 +4,7 @@ import Goflow.Gen.Prng
 namespace Goflow.Gen
 
 /-- the interesting values for a 16/32-bit count or length field -/
-def boundaryVals : List Nat := [0, 1, 1000, 1001, 65535, 2^31 - 1, 2^32 - 1]
+def boundaryVals : List Nat := [0, 1, 1000, 1001, 65535, 2^31 - 1, 2^32 - 1, 100000, 16777215, 99999999]
 
 def setBytesAt (d : Bytes) (off : Nat) (v : Bytes) : Bytes :=
   d.take off ++ v ++ d.drop (off + v.length)
